@@ -22,6 +22,10 @@ bounds = c01.bounds
 
 def plan(tier):
     items = c01.plan(tier)
+    # the documented alias 'per' (PyWavelets accepts it too), on short filters
+    for w in ('db2', 'bior2.2', 'db4'):
+        items.append({'dim': 1, 'wave': w, 'mode': 'per', 'ns': [5, 6, 9, 16], 'jcap': 3})
+        items.append({'dim': 2, 'wave': w, 'mode': 'per', 'h': 6, 'w': 9, 'jcap': 2})
     for it in items:
         it['pcap'] = 512 if tier == 'quick' else 4096
         it['none_maxsize'] = 10 if tier == 'quick' else 16
@@ -30,7 +34,7 @@ def plan(tier):
 
 
 def required_regimes(tier):
-    return (c01.required_regimes(tier) - {'reflect:allowed_raise'}) | {'variant:N=1', 'variant:C=2', 'none:f32', 'none:f64', 'none:finest',
+    return (c01.required_regimes(tier) - {'reflect:allowed_raise', 'variant:no_grad'}) | {'variant:N=1', 'variant:C=2', 'variant:tuple', 'mode_alias:per', 'none:f32', 'none:f64', 'none:finest',
                                                                       'none:coarser_than_present', 'none:lowpass_longer'}
 
 
@@ -64,7 +68,7 @@ def _run(res, dim, w, mode, shape, cap, item):
         cfg = {'dim': dim, 'wave': w, 'mode': mode, 'J': J}
         if dim == 1:
             cfg['n'] = shape[0]
-            tags = dwt.regimes_1d(shape[0], L, mode, J)
+            tags = dwt.regimes_1d(shape[0], L, mode, J) + (['mode_alias:per'] if mode == 'per' else [])
         else:
             cfg['h'], cfg['w'] = shape
             tags = dwt.regimes_1d(shape[0], L, mode, J, 'r') + dwt.regimes_1d(shape[1], L, mode, J, 'c')
@@ -127,6 +131,10 @@ def _run(res, dim, w, mode, shape, cap, item):
                     yl, yh = dwt.pyramid_basis_2d(lsh, hsh)
                     inv = dwt.impl_inv2d
                 o1 = inv(w, mode, yl[:1], [h_[:1] for h_ in yh])
+                ot = inv(w, mode, yl, tuple(yh))                 # the highpass levels as a tuple instead of a list
+                res.regime('variant:tuple')
+                if ot.shape != (P, 1) + out.shape[1:] or common.maxabs(ot[:, 0] - out) > common.TOL * max(1.0, common.maxabs(out)):
+                    res.violation('synthesis_vs_pywt', dict(cfg, variant='yh as tuple'), {'kind': 'value_or_shape'}, tags)
                 o2 = inv(w, mode, np.concatenate([yl, yl[::-1]], axis=1), [np.concatenate([h_, h_[::-1]], axis=1) for h_ in yh])
                 res['impl_calls'] += 2
                 res.regime('variant:N=1', 'variant:C=2')
@@ -202,7 +210,7 @@ def _none_subsets(res, dim, w, mode, shape, J, lsh, hsh, yl, yh, cfg0, tags0):
                     d = cmp_mats(g.reshape(g.shape[0], -1), e.reshape(e.shape[0], -1), tol=tol)
                     if d is not None:
                         sig = None
-                        if 'none_at_odd_level' in tags and mode == 'periodization':
+                        if 'none_at_odd_level' in tags and mode in ('periodization', 'per'):
                             cf = _uncropped_closed_form(mod, dim, tl, th, sub)
                             if cf.shape == got.shape and float((cf - got).abs().max()) <= tol:
                                 sig = 'none_level_takes_uncropped_lowpass'
